@@ -23,6 +23,14 @@ fn q(inst: &mut Instance, out: &mut Obs, key: String, method: &str, params: Valu
 pub fn observe(inst: &mut Instance, uni: &Universe, depth: Depth) -> Obs {
     let mut o = Obs::new();
     q(inst, &mut o, "blockNumber".into(), "eth_blockNumber", json!([]));
+    // the block tags every height parameter accepts
+    for tag in ["latest", "earliest", "pending", "safe", "finalized"] {
+        q(inst, &mut o, format!("blockByTag/{tag}"), "eth_getBlockByNumber", json!([tag, false]));
+    }
+    q(inst, &mut o, "txCountByTag/latest".into(), "eth_getBlockTransactionCountByNumber", json!(["latest"]));
+    q(inst, &mut o, "rawHeaderByTag/latest".into(), "debug_getRawHeader", json!(["latest"]));
+    q(inst, &mut o, "logsByTag/latest".into(), "eth_getLogs", json!([{"fromBlock": "latest", "toBlock": "latest"}]));
+    q(inst, &mut o, "logsByTag/none".into(), "eth_getLogs", json!([{}]));
     for h in 0..=uni.max_height + 1 {
         let hx = format!("0x{:x}", h);
         q(inst, &mut o, format!("blockByNumber/{h}"), "eth_getBlockByNumber", json!([hx, false]));
